@@ -325,4 +325,69 @@ Section Tree.
     eapply shaped_nodes; eassumption.
   Qed.
 
+  Theorem get_cost_bound (t : btree) k :
+    wf t -> get_cost K V cmp t k <= maxKVs * height (root t).
+  Proof.
+    intros Hw. unfold get_cost.
+    pose proof (cost_spec (unit_cost K) 1 t k Hw ltac:(intros; unfold unit_cost; lia)) as H.
+    lia.
+  Qed.
+
+  Theorem leaves_same_depth (t : btree) :
+    wf t -> Forall (fun h => S h = height (root t)) (leaf_depths (root t)).
+  Proof.
+    intros Hw. destruct (wf_unpack t Hw) as (d & Hd & _).
+    rewrite (shaped_height _ _ _ _ Hd).
+    eapply Forall_impl; [|apply (shaped_leaf_depths minKVs maxKVs d _ Hd)].
+    intros h ->. reflexivity.
+  Qed.
+
+  (* 2 * 8^(h-1) <= n + 1 read as h <= 1 + floor(log8((n+1)/2)); log8 x = floor(log2 x / 3) *)
+  Theorem depth_bound_log8 (t : btree) :
+    minKVs = 7 -> wf t -> (1 <= size t)%Z ->
+    (Z.of_nat (height (root t)) <= 1 + Z.log2 ((size t + 1) / 2) / 3)%Z.
+  Proof.
+    intros Hm Hw Hn. pose proof (depth_bound t Hw Hn) as H. rewrite Hm in H.
+    destruct (wf_height t Hw) as (d & _ & Hh). rewrite Hh in *.
+    replace (Z.of_nat (S d) - 1)%Z with (Z.of_nat d) in H by lia.
+    change (Z.of_nat 7 + 1)%Z with (2 ^ 3)%Z in H.
+    rewrite <- Z.pow_mul_r in H by lia.
+    assert (H2 : (2 ^ (3 * Z.of_nat d) <= (size t + 1) / 2)%Z)
+      by (apply Z.div_le_lower_bound; lia).
+    assert (Hpos : (0 < (size t + 1) / 2)%Z).
+    { apply Z.div_str_pos. lia. }
+    apply Z.log2_le_pow2 in H2; [|assumption].
+    assert (Z.of_nat d <= Z.log2 ((size t + 1) / 2) / 3)%Z
+      by (apply Z.div_le_lower_bound; lia).
+    lia.
+  Qed.
+
+  (* ---------------- every history of Puts and Deletes ---------------- *)
+
+  Inductive mut_op : Type := MPut (k : K) (v : V) | MDel (k : K).
+
+  Definition apply_mut (t : btree) (o : mut_op) : btree :=
+    match o with MPut k v => put t k v | MDel k => delete t k end.
+
+  Definition apply_muts (ops : list mut_op) : btree := fold_left apply_mut ops empty_tree.
+
+  Definition spec_mut (m : smap K V) (o : mut_op) : smap K V :=
+    match o with MPut k v => sm_put m k v | MDel k => sm_del m k end.
+
+  Theorem wf_after_muts ops :
+    wf (apply_muts ops) /\
+    inorder (root (apply_muts ops)) = fold_left spec_mut ops [].
+  Proof.
+    unfold apply_muts.
+    assert (G : forall t m, wf t -> inorder (root t) = m ->
+              wf (fold_left apply_mut ops t) /\
+              inorder (root (fold_left apply_mut ops t)) = fold_left spec_mut ops m).
+    { induction ops as [|o ops IH]; intros t m Hw Hio; [auto|].
+      cbn [fold_left]. destruct o as [k v|k]; cbn [apply_mut spec_mut].
+      - destruct (put_spec t k v Hw) as [Hw' Hio']. apply IH; [assumption|]. rewrite Hio', Hio. reflexivity.
+      - destruct (delete_spec t k Hw) as [Hw' Hio']. apply IH; [assumption|]. rewrite Hio', Hio. reflexivity. }
+    apply G; [apply wf_empty|reflexivity].
+  Qed.
+
 End Tree.
+
